@@ -16,7 +16,7 @@ import progast as P
 from pass_constants import snapshot_pair, flat_term
 
 HEADER = ("From Coq Require Import List String QArith Qcanon ZArith.\n"
-          "From Polar Require Import Qcx Dist Syntax Sem Types Poly PassCNBase PassConstants PassCondNorm PassCNMatch.\n"
+          "From Polar Require Import Qcx Dist Syntax Sem Types Poly PassCNBase PassConstants PassCondNorm PassCNMatch Search.\n"
           "Import ListNotations.\nOpen Scope string_scope.\n")
 PER_FILE = 8
 
@@ -58,6 +58,7 @@ def run_pass(ctx, runs):
         try:
             cases.append({"text": run["text"], "opts": run["opts"], "fin": flat_term(a), "fout": flat_term(b),
                           "T": core.types_coq(a["types"]), "types": a["types"], "ineq": has_nontrivial_atom(a),
+                          "drops": P.lst(["true" if x.get("guard_implied") and x["default"] != x["var"] else "false" for x in a["body"]]),
                           "same_len": len(a["body"]) == len(b["body"]) and len(a["init"]) == len(b["init"])})
         except core.NotModelled:
             st["not_modelled"] += 1
@@ -67,7 +68,7 @@ def run_pass(ctx, runs):
         for k, c in enumerate(cases[j:j + PER_FILE]):
             body += (f"Definition T{k} : tenv := {c['T']}.\nDefinition fin{k} : flatprog := {c['fin']}.\n"
                      f"Definition fout{k} : flatprog := {c['fout']}.\n"
-                     f"Eval vm_compute in [cn_in_model T{k} fin{k}; cn_matches T{k} fin{k} fout{k}; check_types fin{k} T{k}].\n")
+                     f"Eval vm_compute in [cn_in_model T{k} fin{k}; cn_matches T{k} fin{k} fout{k}; check_types fin{k} T{k}; check_types_drop fin{k} {c['drops']} T{k}].\n")
         files.append((f"pcn_{j // PER_FILE}", body))
     outs = lib.coq_run_many(ctx, files, timeout=300)
     for j in range(0, len(cases), PER_FILE):
@@ -80,7 +81,7 @@ def run_pass(ctx, runs):
                           "the ConditionsNormalizer model could not be evaluated inside Coq on Polar's snapshots", no_input=True)
             continue
         for c, l in zip(chunk, lists):
-            in_model, matches, typed = [x.strip() == "true" for x in l.split(";")]
+            in_model, matches, typed, typed_drop = [x.strip() == "true" for x in l.split(";")]
             st["instances"] += 1
             if not in_model:
                 # Bernoulli abstraction (Polar adds assignments) or a symbolic / non-numeric type: outside the model
@@ -95,6 +96,9 @@ def run_pass(ctx, runs):
                 st["hypothesis_check_types"] += 1
             else:
                 st["hypothesis_false"] += 1
+                if typed_drop:
+                    # Polar's types are a post-fixpoint of its own (default-dropping) transfer only: known C05 finding
+                    st["hypothesis_false_by_known_C05_finding"] = st.get("hypothesis_false_by_known_C05_finding", 0) + 1
             if matches:
                 st["model_equals_polar"] += 1
                 ctx.coverage["discharged"] += 1
